@@ -2,65 +2,66 @@
    io.ReadFull into a 1024-byte buffer behind the bytes left over from the
    previous round, target 1020, carry-over copy to the front.  The buffer is
    modelled with its stale tail (bytes of earlier rounds that were not
-   overwritten).  [fixed = false] is the code as found: in the last round
-   utf8.DecodeRune is handed rbuf[idx:], which extends past the valid data;
-   [fixed = true] hands it rbuf[idx:tgt].
+   overwritten).  [fixed = false] is the code as found: utf8.DecodeRune is
+   handed rbuf[idx:], which in the last round extends past the valid data;
+   [fixed = true] hands it only the valid bytes rbuf[idx:end].
    The reader is abstracted by what io.ReadFull makes of it: the concatenated
    byte stream and, optionally, the number of bytes after which it fails with
-   a non-EOF error (fragmentation is invisible through ReadFull). *)
+   a non-EOF error (fragmentation is invisible through ReadFull).
+   Counters are binary ([N]) so that the extracted code runs in linear time. *)
 From Coq Require Import List NArith Arith Bool.
 Import ListNotations.
 From LC.Base Require Import Utf8.
 From LC.V2 Require Import Tok.
+Local Open Scope N_scope.
 
-Definition BUFSIZE : nat := 1024.
-Definition TGT : nat := 1020.
+Definition BUFSIZE : N := 1024.
+Definition TGT : N := 1020.
 
-(* inner loop: l = rbuf[pos:] (possibly cut at tgt), decode while pos < tgt *)
-Fixpoint inner (fuel : nat) (T : tables) (normalize : bool) (l : list byte) (pos tgt : nat)
-         (st : tstate) : tstate * nat :=
+(* inner loop: l = rbuf[pos:] (cut at the end of valid data when fixed), decode while pos < tgt *)
+Fixpoint inner (fuel : nat) (T : tables) (normalize : bool) (l : list byte) (pos tgt : N)
+         (st : tstate) : tstate * N :=
   match fuel with
   | O => (st, pos)
   | S f =>
-    if Nat.ltb pos tgt then
+    if pos <? tgt then
       let '(r, n) := decode l in
       match n with
       | O => (st, pos)                      (* empty slice: cannot happen while pos < tgt <= len *)
-      | _ => inner f T normalize (skipn n l) (pos + n) tgt (step T normalize st r)
+      | _ => inner f T normalize (skipn n l) (pos + N.of_nat n) tgt (step T normalize st r)
       end
     else (st, pos)
   end.
 
 Inductive rres := RErr | ROk (st : tstate).
 
-(* outer loop; [rest] = bytes not yet delivered; [fail] = Some k: the reader
-   fails after k more bytes (k counted from the current position) *)
-Fixpoint rounds (fuel : nat) (T : tables) (normalize fixed : bool) (rbuf : list byte) (idx : nat)
-         (rest : list byte) (fail : option nat) (st : tstate) : rres :=
+(* outer loop; [rest] = bytes not yet delivered, [avail] = their number;
+   [fail] = Some k: the reader fails after k more bytes *)
+Fixpoint rounds (fuel : nat) (T : tables) (normalize fixed : bool) (rbuf : list byte) (idx : N)
+         (rest : list byte) (avail : N) (fail : option N) (st : tstate) : rres :=
   match fuel with
   | O => RErr                               (* unreachable: fuel = S (length input) suffices *)
   | S f =>
     let want := BUFSIZE - idx in
-    let avail := length rest in
-    let n := Nat.min want avail in
-    let failed := match fail with Some k => Nat.ltb k want && Nat.leb k avail | None => false end in
+    let n := N.min want avail in
+    let failed := match fail with Some k => (k <? want) && (k <=? avail) | None => false end in
     if failed then RErr
     else
-      let rbuf1 := firstn idx rbuf ++ firstn n rest ++ skipn (idx + n) rbuf in
-      let is_eof := Nat.ltb n want in
+      let rbuf1 := firstn (N.to_nat idx) rbuf ++ firstn (N.to_nat n) rest ++ skipn (N.to_nat (idx + n)) rbuf in
+      let is_eof := n <? want in
       let tgt := if is_eof then idx + n else TGT in
-      let view := if fixed then firstn tgt rbuf1 else rbuf1 in
-      let '(st1, pos) := inner (S BUFSIZE) T normalize view 0 tgt st in
+      let view := if fixed then firstn (N.to_nat (idx + n)) rbuf1 else rbuf1 in
+      let '(st1, pos) := inner 1025 T normalize view 0 tgt st in
       if is_eof then ROk st1
       else
-        let left := skipn pos rbuf1 in
+        let left := skipn (N.to_nat pos) rbuf1 in
         let rbuf2 := left ++ skipn (length left) rbuf1 in
-        rounds f T normalize fixed rbuf2 (length left) (skipn n rest)
+        rounds f T normalize fixed rbuf2 (BUFSIZE - pos) (skipn (N.to_nat n) rest) (avail - n)
                (match fail with Some k => Some (k - n) | None => None end) st1
   end.
 
-Definition tokenize_stream (T : tables) (normalize fixed : bool) (bs : list byte) (fail : option nat) : option doc :=
-  match rounds (S (length bs)) T normalize fixed (repeat 0%N BUFSIZE) 0 bs fail init_state with
+Definition tokenize_stream (T : tables) (normalize fixed : bool) (bs : list byte) (fail : option N) : option doc :=
+  match rounds (S (length bs)) T normalize fixed (repeat 0 (N.to_nat BUFSIZE)) 0 bs (N.of_nat (length bs)) fail init_state with
   | RErr => None
   | ROk st => Some (doc_of (finish T normalize st))
   end.
